@@ -1,10 +1,14 @@
 (* RunC08.v — executable entry point of the C08 model for the correspondence check.
 
-   input  = ( ((id (import ids...) ninstr nanon) ...)    the import graph of the program: every package
+   input  = ( ((id (import ids...) ninstr nanon path ((alias path) ...)) ...)
+                                                         the import graph of the program: every package
                                                          (main included), ids = rank of the alias in
                                                          lexicographic order; ninstr/nanon = size of the
-                                                         package's init block measured in a solo compilation
-              main_id
+                                                         package's init block measured in a solo compilation;
+                                                         path = rank of the import path (the package table is keyed
+                                                         by alias, the directory by path: two paths may share an
+                                                         alias), and the Imports map alias -> path
+              main_path
               (((id ninstr anon_base) ...) ...)          the distinct init-block sequences OBSERVED in the SSA
                                                          listings of many compilations with fresh Compilers
               check_single                               1 when the program was compiled often enough that a
@@ -46,11 +50,13 @@ Definition cur_x (m : msite) : site_class :=
 
 Definition pkg_of_sx (s : sx) : pkg :=
   let ni := getnat (nthx 2 s) in
-  mkPkg (getN (nthx 0 s)) (getLN (nthx 1 s)) [] []
+  let path := getN (nthx 4 s) in
+  mkPkg (getN (nthx 0 s)) (if N.eqb path 0 then getN (nthx 0 s) else path) (getLN (nthx 1 s))
+        (map (fun e => (getN (nthx 0 e), getN (nthx 1 e))) (getL (nthx 5 s))) [] []
         (if Nat.eqb ni 0 then [] else [mkV ni (getnat (nthx 3 s))]) [] [].
 
 Definition with_calls (p : pkg) (calls : list (N * N)) : pkg :=
-  mkPkg (p_name p) (p_imports p) (p_consts p) (p_types p) (p_vars p) (p_sig p) calls.
+  mkPkg (p_name p) (p_path p) (p_imports p) (p_targets p) (p_consts p) (p_types p) (p_vars p) (p_sig p) calls.
 
 Definition insts_of (l : listing) : list nat :=
   flat_map (fun it => match it with ICall _ _ k => [k] | _ => [] end) l.
